@@ -12,17 +12,17 @@ META = dict(
 )
 SIGS = ["", "l", "il", "n", "in", "i", "d", "f", "iiiiii", "iiiiiii", "dddddddd", "ddddddddd", "idid", "p", "q", "r", "s", "t", "u", "m",
         "iiiiip", "iiiiipi", "iiiiir", "iiiir", "dddddddq", "ddddddds", "dddddds", "iiiiit", "ddddddddt", "iiiiiiu", "pqpq", "mi", "iiiiiim", "rst",
-        "iiiiiid", "ddddddddi"]
+        "iiiiiid", "ddddddddi", "iiiiiiiqd"]   # (nine doubles + a struct would need 10 abstract arguments: the ghost child table holds 10 nodes incl. the callee)
 def jobs(tier):
     js = []
     for sg in SIGS:
         for sp0 in (0, 1):
-            quick = (sp0 == 0 and sg in ("iiiiiii", "ddddddddd", "iiiiip", "dddddddq", "iiiiit", "iiiir", "l", "il", "n")) or (sp0 == 1 and sg in ("iiiiiii", "m"))
+            quick = (sp0 == 0 and sg in ("iiiiiii", "ddddddddd", "iiiiip", "dddddddq", "iiiiit", "iiiir", "l", "il", "n", "iiiiiiiqd")) or (sp0 == 1 and sg in ("iiiiiii", "m"))
             js.append(Job(name=f"call-{sg or 'void'}-sp{sp0}", src="call.c", group="C06 caller", defs={"SIG": '\'"%s"\'' % sg, "SP0": str(sp0)},
                           tier="quick" if quick else "thorough", bounded="chosen signature list (values symbolic)",
                           sample=f"call with argument classes '{sg}', {sp0} word(s) already pushed", **CG))
     PL = dict(units=["type.c"], mode="plain", cut=["error", "error_tok", "error_at", "warn_tok"], no_checks=["signed-overflow", "undefined-shift"], timeout=600, replay=None)
-    for sg in ["", "i", "d", "f", "iiiiii", "iiiiiii", "dddddddd", "ddddddddd", "p", "q", "r", "s", "t", "u", "m", "iiiiip", "iiiiipi", "iiiiir", "iiiiiri", "dddddddsd", "dddddddq", "iiiiit", "iiiiiiu", "pqpq", "idrt", "iiiiiim"]:
+    for sg in ["", "i", "d", "f", "iiiiii", "iiiiiii", "dddddddd", "ddddddddd", "p", "q", "r", "s", "t", "u", "m", "iiiiip", "iiiiipi", "iiiiir", "iiiiiri", "dddddddsd", "dddddddq", "iiiiit", "iiiiiiu", "pqpq", "idrt", "iiiiiim", "iiiiiiiqd"]:   # (nine doubles + a struct would need 10 abstract arguments: the ghost child table holds 10 nodes incl. the callee)
         js.append(Job(name=f"callee-{sg or 'void'}", src="callee.c", group="C06 callee", defs={"SIG": '\'"%s"\'' % sg}, bounded="chosen signature list (values symbolic)",
                       sample=f"function with parameter classes '{sg}': homes and register spill", **PL))
     for shp, nm in ((0, 1), (0, 2), (0, 3), (0, 4), (1, 0), (2, 0), (3, 0)):
